@@ -907,6 +907,32 @@ func (env *CEnv) toSeq(v V) *Seq {
 }
 
 func (env *CEnv) call(e *CExpr) V {
+	if m, ok := env.st.x.specs.Macros[e.Tok]; ok {
+		if len(e.Args) != len(m.Params) {
+			cfail("macro %s: %d arguments, want %d", e.Tok, len(e.Args), len(m.Params))
+		}
+		saved := map[string]*V{}
+		for i, p := range m.Params {
+			v := env.eval(e.Args[i])
+			if old, had := env.vars[p]; had {
+				o := old
+				saved[p] = &o
+			} else {
+				saved[p] = nil
+			}
+			env.vars[p] = v
+		}
+		defer func() {
+			for p, o := range saved {
+				if o == nil {
+					delete(env.vars, p)
+				} else {
+					env.vars[p] = *o
+				}
+			}
+		}()
+		return env.eval(m.Body)
+	}
 	arg := func(i int) V {
 		if i >= len(e.Args) {
 			cfail("%s: missing argument %d", e.Tok, i)
@@ -1168,6 +1194,22 @@ func (env *CEnv) call(e *CExpr) V {
 	case "tid", "rtype":
 		// tid(T): the type word of an interface holding a value of basic type T;
 		// rtype(T): reflect.TypeOf of such a value
+		if len(e.Args) == 1 && e.Args[0].Op == "str" && e.Tok == "tid" {
+			// tid("pkg.Type") / tid("*pkg.Type"): the type word of an interface holding a value of that named type
+			name, err := strconv.Unquote(e.Args[0].Tok)
+			if err != nil {
+				cfail("tid: %v", err)
+			}
+			ptr := strings.HasPrefix(name, "*")
+			nt := env.st.x.namedType(strings.TrimPrefix(name, "*"))
+			if nt == nil {
+				cfail("tid: unknown type %s", name)
+			}
+			if ptr {
+				nt = types.NewPointer(nt)
+			}
+			return vPtr(env.st.x.typeID(nt), nil)
+		}
 		if len(e.Args) != 1 || e.Args[0].Op != "ident" {
 			cfail("%s(T) needs a basic type name", e.Tok)
 		}
